@@ -37,6 +37,7 @@ type hsCase struct {
 	ClientKind   string // gm | tls
 	Peer         string // gmtls | stdclient | stdserver
 	CertSource   string // static | callbacks | constructor
+	Cloned       int    // bit 0: the client works on a Clone() of its configuration, bit 1: the server does
 	StdCert      string // rsa | ec
 	SrvCert      string // good | untrusted | expired | future | wrongname | enc_expired
 	SrvSuites    []uint16
@@ -110,6 +111,9 @@ func drawCase(t *rapid.T) hsCase {
 		c.CertSource = rapid.SampledFrom([]string{"constructor", "callbacks"}).Draw(t, "certsource")
 	default:
 		c.CertSource = rapid.SampledFrom([]string{"static", "callbacks", "static_declining_callback"}).Draw(t, "certsource")
+	}
+	if gen.OneIn(t, "cloned", 3) {
+		c.Cloned = rapid.IntRange(1, 3).Draw(t, "clonedwho")
 	}
 	c.SrvCert = "good"
 	if gen.OneIn(t, "badsrvcert", 7) {
@@ -308,6 +312,14 @@ func build(c hsCase, id string) (ccfg, scfg *gmtls.Config) {
 		} else {
 			ccfg.Certificates = []gmtls.Certificate{cc.TLS}
 		}
+	}
+	// Config.Clone is what Dial and the listeners work on whenever they need a configuration of their own: a clone
+	// behaves exactly like the configuration it was made from
+	if c.Cloned&1 != 0 {
+		ccfg = ccfg.Clone()
+	}
+	if c.Cloned&2 != 0 {
+		scfg = scfg.Clone()
 	}
 	return
 }
@@ -716,7 +728,7 @@ func TestC06_Handshakes(t *testing.T) {
 			ccfg.Rand, scfg.Rand = tlsx.ShortRand{R: ccfg.Rand, N: 1 + n%7}, tlsx.ShortRand{R: scfg.Rand, N: 1 + (n/4)%7}
 		}
 		csend, ssend := payload(c.CSend, 'c'), payload(c.SSend, 's')
-		cl := []string{"mode:" + c.ServerMode, "client:" + c.ClientKind, fmt.Sprintf("auth:%d", c.ClientAuth), "clientcert:" + c.ClientCert, "certsource:" + c.CertSource, "srvcert:" + c.SrvCert}
+		cl := []string{"mode:" + c.ServerMode, "client:" + c.ClientKind, fmt.Sprintf("auth:%d", c.ClientAuth), "clientcert:" + c.ClientCert, "certsource:" + c.CertSource, "srvcert:" + c.SrvCert, fmt.Sprintf("cloned_configs:%d", c.Cloned)}
 		if c.CSend > 16384 || c.SSend > 16384 {
 			cl = append(cl, "payload>16KiB")
 		}
